@@ -21,7 +21,8 @@ REQUIRED_CLASSES = ["ok"]
 RULE = ("all 48 orientation codes x RAS sizes x chunk sizes x pixel kinds "
         "{grey uint8, grey uint16, RGB uint8, two directories = 2 channels} "
         "x storage {flat no-gzip, deep gzip, sharded(1,1,0) for cubic "
-        "chunks} (quick: 2 sizes x 2 chunk sizes x 2 pixel kinds x 1-2 "
+        "chunks}, plus label stacks stored as compressed_segmentation for "
+        "all 48 codes (quick: 2 sizes x 2 chunk sizes x 2 pixel kinds x 1-2 "
         "storages; thorough: 6 x 5 x 4 x 3); slice counts smaller than, "
         "equal to and not divisible by the chunk depth occur for every "
         "axis. Each case writes real PNG files, runs "
@@ -134,6 +135,9 @@ def _eval_in(col, case, d):
     scale = {"key": "full", "size": list(size), "chunk_sizes": [list(cs)],
              "resolution": [1000, 1000, 1000], "voxel_offset": [0, 0, 0],
              "encoding": "raw"}
+    if case.get("encoding") == "compressed_segmentation":
+        scale["encoding"] = "compressed_segmentation"
+        scale["compressed_segmentation_block_size"] = [2, 2, 2]
     st = case["storage"]
     opts = {"flat": False, "gzip": True}
     if st == "flat-nogzip":
@@ -147,6 +151,8 @@ def _eval_in(col, case, d):
     info = {"type": "image", "num_channels": nch,
             "data_type": "uint16" if kind == "uint16" else "uint8",
             "scales": [scale]}
+    if case.get("encoding") == "compressed_segmentation":
+        info["type"], info["data_type"] = "segmentation", "uint32"
     with open(os.path.join(dest, "info"), "w") as f:
         json.dump(info, f)
     a = [AXIS[ch] for ch in code]
@@ -178,6 +184,8 @@ def _eval_in(col, case, d):
         col.violation("C15/readback/exception/" + type(exc).__name__, case,
                       "every chunk readable", repr(exc)[:200])
         return
+    if case.get("encoding") == "compressed_segmentation":
+        want = want.astype("uint32")
     if got.shape != want.shape or got.dtype.newbyteorder("=") != want.dtype:
         col.ev(1, nontriv, "bad")
         col.violation("C15/volume/shape-or-dtype", case,
@@ -225,6 +233,14 @@ def cases(tier):
                         out.append({"code": code, "size": list(size),
                                     "chunk": list(cs), "pixels": kind,
                                     "storage": st})
+    # label stacks stored as compressed_segmentation (all 48 codes)
+    for code in codes:
+        for size, cs in (((4, 6, 5), (4, 4, 4)), ((6, 4, 2), (2, 2, 2))):
+            if tier == "quick" and size != (4, 6, 5):
+                continue
+            out.append({"code": code, "size": list(size), "chunk": list(cs),
+                        "pixels": "uint8", "storage": "flat-nogzip",
+                        "encoding": "compressed_segmentation"})
     # quick also covers the other two pixel kinds on a few codes
     if tier == "quick":
         for code in ("RAS", "LPI", "SRA", "IPL", "ASR", "PIR"):
